@@ -69,6 +69,16 @@ EXTRA = [
     ('join_aliases_upper', 'SELECT A.id, B.c FROM int1.t1 AS A JOIN int1.t3 AS B ON A.id = B.id'),
 ]
 
+# tables written without the integration qualifier: only meaningful when the integration is the default namespace
+EXTRA_DEFAULT_NS = [
+    ('unqualified', 'SELECT id FROM t1 WHERE a = 1'),
+    ('unqualified_schema_path', 'SELECT id FROM sch.t1 WHERE a = 1'),
+    ('unqualified_catalog_schema_path', 'SELECT id FROM warehouse.sales.t1 WHERE a = 1'),
+    ('unqualified_catalog_schema_path_join', 'SELECT t1.id FROM warehouse.sales.t1 JOIN int1.t3 ON t1.id = t3.id'),
+    ('unqualified_four_parts', 'SELECT id FROM a.b.c.t1'),
+    ('unqualified_union', 'SELECT id FROM t1 UNION SELECT id FROM t3'),
+]
+
 NEGATIVE = [
     ('model_join', 'SELECT * FROM int1.t1 JOIN mindsdb.pred'),
     ('model_only', 'SELECT * FROM mindsdb.pred WHERE a = 1'),
@@ -166,6 +176,8 @@ class CHECK(Check):
         for label, sql in EXTRA:
             for cat in CATALOGS:
                 out.append(('extra', label, cat))
+        for label, sql in EXTRA_DEFAULT_NS:
+            out.append(('extra', label, 'default_int1'))
         for label, sql in NEGATIVE:
             out.append(('negative', label, None))
         return out
@@ -250,7 +262,7 @@ class CHECK(Check):
             return self.run_negative(res, payload)
         self.choose_dbs(sum(1 for v in payload if v) if kind == 'model' else 0)
         if kind == 'extra':
-            sql = dict(EXTRA)[payload]
+            sql = dict(EXTRA + EXTRA_DEFAULT_NS)[payload]
             res.key((sql, cat))
             for k, detail, msg in self.evaluate(sql, sql, [], None, None, cat, res):
                 res.violation(f'{k}|{payload}' + (f'|{detail}' if detail else ''), msg)
